@@ -17,7 +17,7 @@ echo "demo with patch:    rc=$r1 $(grep -E '^test result' /tmp/vw.demo1.log | he
 git checkout -- . && git clean -fdq -e target
 git apply "$D/patch.diff"
 cargo build --workspace --offline > /tmp/vw.build.log 2>&1; echo "workspace build with patch rc=$?"
-cargo nextest run --workspace --no-fail-fast --tool-config-file pb:/w/lib/nextest.toml --profile pb --test-threads 8 --offline > /tmp/vw.suite.log 2>&1
+rm -f /tmp/vw/target/nextest/pb/junit.xml; cargo nextest run --workspace --no-fail-fast --tool-config-file pb:/w/lib/nextest.toml --profile pb --test-threads 8 --offline > /tmp/vw.suite.log 2>&1
 python3 - <<'PY'
 import json,xml.etree.ElementTree as ET,subprocess
 stable=set(json.load(open('/root/.vp/BASELINE.json'))['stable_pass'])
